@@ -389,6 +389,7 @@ def jobs(tier):
                                  'class ids are small integers'],
                     extracted=[exa, exc], props=['C08', 'C04', 'C10'] if pname == 'two-ids-per-class' else ['C08', 'C04'], timeout=300, replay=replay)
             j.graph = (n, direct, recs) if pname != 'two-ids-per-class' else None
+            j.no_cross = True      # concrete run: the formula is decided by simplification, a second SAT back end adds nothing
             out.append(j)
     # update-time diagnosis of an unregistered base (C15)
     defs = ['CFG_N=2', 'CFG_NREC=2', 'CFG_ANC=%dull' % (1 << (1 * 4 + 0)), 'CFG_DIR=%dull' % (1 << (1 * 4 + 0)), 'CFG_UNKNOWN=7',
